@@ -69,6 +69,7 @@ type wallet struct {
 	pubs   [][]byte // 33- and 65-byte keys
 	h256   [][]byte // 32-byte script hashes
 	tags   [][]byte // data carried by OP_RETURN / non-standard scripts
+	bigs   [][]byte // data elements longer than a standard push (> 520 bytes)
 	others [][]byte // foreign material (never watched)
 }
 
@@ -83,6 +84,7 @@ func newWallet(r *vh.RNG) *wallet {
 	w.pubs = append(w.pubs, append([]byte{4}, r.Bytes(64)...))
 	w.h256 = append(w.h256, r.Bytes(32))
 	w.tags = append(w.tags, r.Bytes(1+r.Intn(12)), r.Bytes(4))
+	w.bigs = append(w.bigs, r.Bytes(521+r.Intn(4)), r.Bytes(600))
 	for i := 0; i < 4; i++ {
 		w.others = append(w.others, r.Bytes(20))
 	}
@@ -102,7 +104,11 @@ func (w *wallet) pick(r *vh.RNG, pool [][]byte, own int) []byte {
 	return f
 }
 
-var outShapes = []string{"p2pkh", "p2pkh", "p2pkh", "p2sh", "p2pk", "p2pk", "multisig", "multisig", "nulldata", "nonstd", "unparsable", "empty", "emptypush", "op0", "badpk", "p2sh32", "p2pkh+pk"}
+var outShapes = []string{"p2pkh", "p2pkh", "p2pkh", "p2sh", "p2pk", "p2pk", "multisig", "multisig", "nulldata", "nonstd", "unparsable", "empty", "emptypush", "op0", "badpk", "p2sh32", "p2pkh+pk", "multisig-wide", "padded", "bigpush"}
+
+// script lengths around the limits other layers impose (MaxScriptElementSize 520, MaxScriptSize 10000): none of
+// them is a limit of txscript.PushedData or of the filter, so a watched push in such a script must still be found
+var paddedLens = []int{521, 1651, 9999, 10000, 10001, 10002, 12000}
 
 func genOutScript(r *vh.RNG, w *wallet, shape string, own int) gScript {
 	switch shape {
@@ -130,6 +136,27 @@ func genOutScript(r *vh.RNG, w *wallet, shape string, own int) gScript {
 		}
 		s = append(s, byte(0x50+n), 0xae)
 		return gScript{s, ks, false, true, shape}
+	case "multisig-wide": // bare multisig with 4..16 keys, compressed and uncompressed (scripts of 140 .. 1059 bytes)
+		n := 4 + r.Intn(13)
+		m := 1 + r.Intn(n)
+		var ks [][]byte
+		s := []byte{byte(0x50 + m)}
+		for i := 0; i < n; i++ {
+			k := w.pick(r, w.pubs, own/3+1)
+			ks = append(ks, k)
+			s = append(s, push(k)...)
+		}
+		s = append(s, byte(0x50+n), 0xae)
+		return gScript{s, ks, false, true, shape}
+	case "padded": // <h> OP_DROP OP_NOP... OP_1, padded to a length around a limit
+		h := w.pick(r, w.h160, own)
+		base := cat(push(h), []byte{0x75})
+		L := vh.Pick(r, paddedLens)
+		return gScript{cat(base, bytes.Repeat([]byte{0x61}, L-len(base)-1), []byte{0x51}), [][]byte{h}, false, false, shape}
+	case "bigpush": // a data element longer than 520 bytes, then a short one
+		d := w.pick(r, w.bigs, own)
+		h := w.pick(r, w.h160, own)
+		return gScript{cat(push(d), []byte{0x75}, push(h), []byte{0x75, 0x51}), [][]byte{d, h}, false, false, shape}
 	case "nulldata":
 		d := w.pick(r, w.tags, own)
 		return gScript{cat([]byte{0x6a}, push(d)), [][]byte{d}, false, false, shape}
@@ -159,6 +186,15 @@ func genOutScript(r *vh.RNG, w *wallet, shape string, own int) gScript {
 }
 
 func genSigScript(r *vh.RNG, w *wallet, own int) gScript {
+	switch r.Intn(20) { // 1 in 10: long signature scripts
+	case 18: // a watched tag, then OP_NOP padding to a length around a limit
+		d := w.pick(r, w.tags, own)
+		L := vh.Pick(r, paddedLens)
+		return gScript{cat(push(d), bytes.Repeat([]byte{0x61}, L-len(push(d)))), [][]byte{d}, false, false, "padded"}
+	case 19: // a data element longer than 520 bytes
+		d := w.pick(r, w.bigs, own)
+		return gScript{cat(push(d), []byte{0x51}), [][]byte{d}, false, false, "bigpush"}
+	}
 	switch r.Intn(8) {
 	case 0, 1, 2: // <sig> <pubkey>
 		sig := r.Bytes(vh.Pick(r, []int{8, 9, 8, 71, 72}))
@@ -371,7 +407,7 @@ func spendIdx(r *vh.RNG, w *wallet, p *gTx) uint32 {
 }
 
 func (w *wallet) owns(d []byte) bool {
-	for _, pool := range [][][]byte{w.h160, w.pubs, w.h256, w.tags} {
+	for _, pool := range [][][]byte{w.h160, w.pubs, w.h256, w.tags, w.bigs} {
 		for _, x := range pool {
 			if bytes.Equal(x, d) {
 				return true
@@ -810,12 +846,12 @@ func coqTable(p fParams, items map[string][]byte) string {
 
 // ---------------------------------------------------------------- replay descriptions
 type scanReplay struct {
-	Kind     string   `json:"kind"`
-	Family   string   `json:"family,omitempty"`
-	Order    string   `json:"order,omitempty"`
-	Filter   fParams  `json:"filter"`
-	Watch    []string `json:"watch"`
-	Txs      []string `json:"txs"` // serialized transactions, in block order
+	Kind     string      `json:"kind"`
+	Family   string      `json:"family,omitempty"`
+	Order    string      `json:"order,omitempty"`
+	Filter   fParams     `json:"filter"`
+	Watch    []string    `json:"watch"`
+	Txs      []string    `json:"txs"` // serialized transactions, in block order
 	Observed interface{} `json:"observed,omitempty"`
 	Required interface{} `json:"required,omitempty"`
 }
@@ -948,14 +984,14 @@ func allocBudget(n, inputs int, perCall uint64) uint64 {
 
 // ---------------------------------------------------------------- one block scenario
 type scenario struct {
-	family string
-	order  string
-	p      fParams
-	watch  [][]byte
-	txs    []*wire.MsgTx
-	abs    []absTx // by construction (generation) or through txscript (replay)
-	alias  bool    // a data push equals an outpoint serialisation: the exact-equality monitor does not apply
-	aliasChain bool // the constructed alias-chain family: the closure uses the aliasHot rule on exact filters
+	family     string
+	order      string
+	p          fParams
+	watch      [][]byte
+	txs        []*wire.MsgTx
+	abs        []absTx // by construction (generation) or through txscript (replay)
+	alias      bool    // a data push equals an outpoint serialisation: the exact-equality monitor does not apply
+	aliasChain bool    // the constructed alias-chain family: the closure uses the aliasHot rule on exact filters
 }
 
 func checkScan(sc scenario, corr bool, costOnly bool) {
@@ -1188,6 +1224,9 @@ func genWatch(r *vh.RNG, w *wallet, txs []*gTx) [][]byte {
 	}
 	if r.Intn(3) == 0 {
 		add(vh.Pick(r, w.tags))
+	}
+	if r.Intn(3) == 0 {
+		add(vh.Pick(r, w.bigs))
 	}
 	if len(txs) > 0 {
 		if r.Intn(3) == 0 { // a transaction id (preferably of a transaction with outputs)
